@@ -3,7 +3,7 @@ CONSTANTS
   Classes = {"string", "hostport", "stringlist", "stringmap", "int", "duration", "memsize", "bool"}
   Uniform = TRUE
   Faithful = TRUE
-INVARIANTS TypeOK LosersDoNotShow WinnerShows DefaultWhenUndefined SetVarsExpanded UnsetLeftAlone OtherKindsVerbatim ValidatedIsApplied DeviationsDiffer MapMergePerKey
+INVARIANTS TypeOK LosersDoNotShow WinnerShows DefaultWhenUndefined SetVarsExpanded UnsetLeftAlone DollarLiteralsVerbatim OtherKindsVerbatim ValidatedIsApplied DeviationsDiffer MapMergePerKey
 PROPERTY InputsUntouched
 ACTION_CONSTRAINT Dump
 VIEW View
